@@ -8,6 +8,12 @@ CHECKS = {
                 text="All sorted lists of length 0-7 over 5 values x 11 probes x 5 helpers are enumerated completely and compared with linear-scan definitions; Hypothesis adds float/int/str lists up to 200 long with probes on, one ulp beside, and far from elements. Pure functions of (list, probe), so the finite core plus random wide lists is the right level.",
                 note="Trusts Python's comparison operators and the linear-scan reference; lists are sorted and NaN-free as at every call site.", design="3/C18"),
 }
+CHECKS["C09"] = dict(category="exploration", technique="exhaustive small-scope enumeration + Hypothesis-generated expressions against an independent reference evaluator and connective laws",
+    text="Every leaf of a ~140-leaf vocabulary is evaluated on all 11 664 points of a finite universe and compared with an independent evaluator written from the docs; every depth-2 expression over the vocabulary and (thorough: all, quick: a slice of) depth-3 expressions over a 12-leaf core are checked for meaning, for the connective laws against the implementation's own operand results, and for totality; Hypothesis adds expressions up to depth 6. Queries are pure functions of (expression, point), so small-scope exhaustion plus random depth is the right level.",
+    note="Trusts the reference evaluator (qast.ref), Python's re and comparison semantics; user functions come from a fixed registry of total tests and possibly-raising maps; NaN excluded.", design="3/C09")
+CHECKS["C17"] = dict(category="exploration", technique="exhaustive pair enumeration + Hypothesis perturbation pairs; oracle: equality implies equal hash and equal truth table on the finite universe",
+    text="All ordered pairs of independently built vocabulary leaves, of depth<=2 expressions over a 23-leaf confusable core, and of 1 200 two-level expressions over 3 leaves are compared: equal pairs must hash alike and evaluate alike on every universe point varying the slots they read; commutativity of & and | and the never-equal rule for map are enumerated; Hypothesis adds perturbed deeper pairs.",
+    note="Behavioural equality is decided on the finite universe of C09 (and pool points for generated pairs), not on all conceivable points.", design="3/C17")
 NA = {}
 checks = []
 for p in props:
